@@ -297,6 +297,38 @@ theorem mergeSample_spec {ge : Bool} {s o : Sample Rat} {d : Draws Rat}
           · simp only; rw [pushOpt_len_some _ hsp, List.length_append, hfl]; push_cast; omega
           · simp only; rw [hfl]; simp only [hlt, iff_true]; exact hop
 
+/-- In exact arithmetic the proposed rounding guard never fires on its own: an integral `c` with fractions adding up to
+less than 1/2 means both fractions are zero, which is the first case of `mergeSample` anyway. -/
+theorem mergeSampleV_eq_rat (vf ge : Bool) (s o : Sample Rat) (d : Draws Rat) :
+    mergeSampleV vf ge s o d = mergeSample ge s o d := by
+  unfold mergeSampleV
+  simp only [rat_eq, rat_lt, rat_one, rat_ofNat, rat_floor, Bool.and_eq_true, decide_eq_true_eq]
+  split
+  · rename_i h
+    obtain ⟨⟨-, hint⟩, hlt⟩ := h
+    have a1 := fl_le s.c
+    have a2 := lt_fl_add_one s.c
+    have b1 := fl_le o.c
+    have b2 := lt_fl_add_one o.c
+    -- cf + of is an integer in [0, 1/2), hence 0
+    have e1 : (((s.c + o.c).floor - s.c.floor - o.c.floor : Int) : Rat) = (s.c - ↑s.c.floor) + (o.c - ↑o.c.floor) := by
+      push_cast; rw [← hint]; ring
+    have lo : (-1 : Rat) < (((s.c + o.c).floor - s.c.floor - o.c.floor : Int) : Rat) := by rw [e1]; linarith
+    have hi : (((s.c + o.c).floor - s.c.floor - o.c.floor : Int) : Rat) < 1 := by rw [e1]; norm_num at hlt; linarith
+    have lo' : (-1 : Int) < (s.c + o.c).floor - s.c.floor - o.c.floor := by exact_mod_cast lo
+    have hi' : (s.c + o.c).floor - s.c.floor - o.c.floor < (1 : Int) := by exact_mod_cast hi
+    have hz : (s.c + o.c).floor - s.c.floor - o.c.floor = 0 := by omega
+    rw [hz] at e1
+    have hcf : s.c - ↑s.c.floor = 0 := by
+      have : (0 : Rat) = (s.c - ↑s.c.floor) + (o.c - ↑o.c.floor) := by simpa using e1
+      linarith
+    have hof : o.c - ↑o.c.floor = 0 := by
+      have : (0 : Rat) = (s.c - ↑s.c.floor) + (o.c - ↑o.c.floor) := by simpa using e1
+      linarith
+    rw [mergeSample_eq]
+    simp only [rat_eq, rat_zero, rat_floor, Bool.and_eq_true, decide_eq_true_eq, hcf, hof, and_self, if_true]
+  · rfl
+
 /-! ### downsample -/
 
 theorem unitOK_of_us {ge : Bool} {d d' : Draws Rat} (h : d'.us = d.us) (hd : UnitOK ge d) : UnitOK ge d' := by
